@@ -25,6 +25,7 @@ func checkC04(c *Ctx) {
 	r.Trusted = []string{"internal/absint", "crypto/aes, jacobsa/crypto/cmac as uninterpreted functions", "AES decrypt/encrypt are mutually inverse"}
 	r.Rule("R1.uplink-mic", "join/rejoin-request MIC = cmac(key, MHDR|payload)[0..3]")
 	r.Rule("R2.downlink-mic", "join-accept MIC = cmac(key, [JoinReqType|JoinEUI LE|DevNonce LE iff OptNeg] | MHDR | payload)[0..3]")
+	r.Rule("R4.wrappers", "Set*JoinMIC stores the computed MIC; Validate*JoinMIC is true exactly when all four MIC bytes match")
 	r.Rule("R3.encrypt", "EncryptJoinAcceptPayload = per-block AES-decrypt over payload|MIC; DecryptJoinAcceptPayload = per-block AES-encrypt, MIC and payload split at len-4")
 	T := func(in *absint.Interp) interface{} { return nil }
 	_ = T
@@ -100,6 +101,7 @@ func checkC04(c *Ctx) {
 			})
 		}
 	}
+	micWrappers(c, "R4.wrappers", true)
 	// ---- R3 encrypt
 	for _, v := range jaVariants() {
 		in := absint.NewInterp(c.Prog)
